@@ -1,0 +1,855 @@
+//go:build verif
+
+// Contracts for the collection layer of package geojson (collection.go and the five wrappers MultiPoint, MultiLineString,
+// MultiPolygon, GeometryCollection, FeatureCollection): property C10 "collections answer as the composition of their
+// children, indexed or not". Comment-only file read by /verif/govc.
+//
+// Assumed (never proved) in this file - each is named at its declaration:
+//   AWithin<Point|Rect|Line|Poly>, AIntersects<Point|Rect|Line|Poly>, AIntersectsObj, AContainsObj
+//       interface-level requirement on CHILDREN (DESIGN.md section 5 C10, "A-WITHIN-RECT"): a well-formed child that is within / intersects /
+//       contains a probe is non-empty and its rectangle meets the probe's rectangle - what makes the rectangle pre-filter of Search sound.
+//       "Well-formed" includes oBoxOK (Rect-kind parts have Min <= Max): for an inverted Rect child the code really disagrees with the law (see report).
+//   AFrameKid (two-state)  A-FRAME / A-TREE: rewriting the cached fields of the collection under construction does not change the model of its children.
+//   ARTreeBuilt, extern rtree.RTree.Insert, `skip collection.go:39` in collection.Search    A-RTREE: the external child R-tree.
+// Expected failing obligations (genuine disagreements between code and property, kept as separately labelled ensures that no caller needs):
+//   collection.Valid#post.ret0.LawF11 (F11), collection.Contains#post.ret1.FeatureTransparent (F10).
+
+package geojson
+
+// ---------------------------------------------------------------- model
+// children in document order; collChild is opaque so that quantified facts about children are triggered on it
+//@ spec func collN(c *collection) int { len(c.children) }
+//@ spec func collChild(c *collection, i int) Object opaque { c.children[i] }
+
+// cached state of a collection: the object-layer leaves of Empty / Rect (zz_contracts_laws_verif.go) are the cached fields;
+// CollShape (below) ties them to the composition laws over the children
+//@ spec func collEmptyS(c *collection) bool { c.pempty }
+//@ spec func collRectS(c *collection) geometry.Rect { c.prect }
+//@ spec func oEmpty(o Object) bool { oEmptyS(o) }
+//@ spec func oRect(o Object) geometry.Rect { oRectS(o) }
+
+//@ spec func zeroRect() geometry.Rect { geometry.mkRect(geometry.mkPoint(0,0), geometry.mkPoint(0,0)) }
+//@ spec func unionRectS(a geometry.Rect, b geometry.Rect) geometry.Rect {
+//@     geometry.mkRect(geometry.mkPoint(min(a.Min.X,b.Min.X), min(a.Min.Y,b.Min.Y)), geometry.mkPoint(max(a.Max.X,b.Max.X), max(a.Max.Y,b.Max.Y))) }
+// composition laws of Empty and Rect: all children empty / union of the rectangles of the non-empty children (zero rectangle when there is none)
+//@ spec func allEmptyUpTo(c *collection, k int) bool rec { k <= 0 || (allEmptyUpTo(c,k-1) && oEmpty(collChild(c,k-1))) }
+//@ spec func unionUpTo(c *collection, k int) geometry.Rect rec {
+//@     ite(k <= 0, zeroRect(),
+//@     ite(oEmpty(collChild(c,k-1)), unionUpTo(c,k-1),
+//@     ite(allEmptyUpTo(c,k-1), oRect(collChild(c,k-1)), unionRectS(unionUpTo(c,k-1), oRect(collChild(c,k-1)))))) }
+
+// the child index (external package github.com/tidwall/rtree, not verified): abstract predicate "the tree holds exactly the
+// non-empty children, each with its own rectangle"; established by parseInitRectIndex through A-RTREE, consumed by the tree path of Search
+//@ spec func TreeHolds(c *collection) bool
+//@ spec func TreeInv(c *collection) bool { c.tree != nil ==> TreeHolds(c) }
+
+
+// ---------------------------------------------------------------- the parts of an object (ForEach's enumeration, per kind)
+// leaf kinds, Feature and Circle are one part (themselves); a collection kind is the concatenation of its children's parts, in document order.
+// (structural recursion over the object tree: well-defined because objects are finite trees, assumption A-TREE)
+//@ spec func partsUpTo(c *collection, k int) int rec {
+//@     ite(k <= 0, 0, partsUpTo(c,k-1) + ite(isCollObjK(collChild(c,k-1)), partsUpTo(collOf(collChild(c,k-1)), collN(collOf(collChild(c,k-1)))), 1)) }
+//@ spec func partAt(c *collection, k int, i int) Object rec {
+//@     ite(k <= 0, nil,
+//@     ite(i < partsUpTo(c,k-1), partAt(c,k-1,i),
+//@     ite(isCollObjK(collChild(c,k-1)), partAt(collOf(collChild(c,k-1)), collN(collOf(collChild(c,k-1))), i - partsUpTo(c,k-1)), collChild(c,k-1)))) }
+//@ spec func oNParts(o Object) int { ite(isCollObjK(o), partsUpTo(collOf(o), collN(collOf(o))), 1) }
+//@ spec func oPart(o Object, i int) Object { ite(isCollObjK(o), partAt(collOf(o), collN(collOf(o)), i), o) }
+//@ spec func partOK(o Object, i int) bool { ObjInv(oPart(o, i)) }
+
+// well-formed child: object invariant + every Rect-kind part is normalised (Min <= Max); see finding "inverted Rect child"
+//@ spec func oBoxOK(o Object) bool rec { (isRectK(o) ==> geometry.rectOK(as(o,*Rect).base)) && (isFeatureK(o) ==> oBoxOK(ftBase(o))) }
+//@ spec func KidInv(o Object) bool { ObjInv(o) && oBoxOK(o) && oNParts(o) >= 0 }
+//@ spec func CollKidsInv(c *collection) bool opaque { forall i int :: 0 <= i && i < collN(c) ==> KidInv(collChild(c,i)) }
+//@ spec func CollShape(c *collection) bool opaque {
+//@     c.pempty == allEmptyUpTo(c, collN(c)) && c.prect == unionUpTo(c, collN(c)) && TreeInv(c) }
+//@ spec func CollInv(c *collection) bool { c != nil && CollKidsInv(c) && CollShape(c) }
+
+//@ lemma kidInv(c *collection, i int)
+//@   props C10
+//@   requires CollKidsInv(c) && 0 <= i && i < collN(c)
+//@   ensures KidInv(collChild(c,i)) && ObjInv(collChild(c,i)) && collChild(c,i) != nil
+
+// which children a search must report: the non-empty ones whose rectangle meets the query rectangle
+//@ spec func childMatch(c *collection, i int, r geometry.Rect) bool { !oEmpty(collChild(c,i)) && geometry.rectsMeet(oRect(collChild(c,i)), r) }
+
+// ---------------------------------------------------------------- counting over the reported set
+//@ spec func cardSeen(seen set, k int) int rec { ite(k <= 0, 0, cardSeen(seen,k-1) + ite(seen[k-1], 1, 0)) }
+//@ lemma cardEmpty(k int)
+//@   props C10
+//@   ensures cardSeen(emptyset, k) == 0
+//@   induction k
+//@ lemma cardLe(seen set, k int)
+//@   props C10
+//@   requires 0 <= k
+//@   ensures 0 <= cardSeen(seen, k) && cardSeen(seen, k) <= k
+//@   induction k
+//@ lemma cardStore(seen set, i int, k int)
+//@   props C10
+//@   requires !seen[i] && 0 <= i
+//@   ensures cardSeen(store(seen,i,true), k) == cardSeen(seen,k) + ite(i < k, 1, 0)
+//@   induction k
+//@ lemma cardMissing(seen set, i int, k int)
+//@   props C10
+//@   requires 0 <= i && i < k && !seen[i]
+//@   ensures cardSeen(seen, k) < k
+//@   induction k
+//@   use cardLe(seen, k-1)
+
+// ---------------------------------------------------------------- simple observers
+//@ func collection.Indexed
+//@   props C10
+//@   arith order
+//@   requires g != nil
+//@   ensures result == (g.tree != nil)
+//@ func collection.Children
+//@   props C10
+//@   arith order
+//@   requires g != nil
+//@   ensures result == g.children
+//@ func collection.Base
+//@   props C10
+//@   arith order
+//@   requires g != nil
+//@   ensures result == g.children
+//@ func collection.Empty
+//@   props C10 C11 C09
+//@   arith order
+//@   requires g != nil
+//@   ensures result == collEmptyS(g)
+//@ func collection.Rect
+//@   props C10 C11 C09
+//@   arith order
+//@   requires g != nil
+//@   ensures result == collRectS(g)
+//@ func collection.Center
+//@   props C10 C11
+//@   arith order
+//@   requires g != nil
+//@   ensures result == geometry.mkPoint(fdiv(fadd(g.prect.Max.X, g.prect.Min.X), 2), fdiv(fadd(g.prect.Max.Y, g.prect.Min.Y), 2))
+
+// ---------------------------------------------------------------- Search: the child-search protocol (both paths satisfy one set-based contract)
+//@ func collection.Search
+//@   props C10
+//@   arith order
+//@   requires CollInv(g)
+//@   skip collection.go:39 A-RTREE: the tree path hands a forwarding literal to the external rtree.RTree.Search; its content is not modelled (TreeHolds is abstract)
+//@   iter iter(idx) dom 0 <= idx && idx < collN(g) ; match childMatch(g, idx, rect) ; args collChild(g, idx) ; at $i
+//@   loop 0 invariant !stopped
+//@   loop 0 invariant forall j int :: seen[j] == (old(seen)[j] || (0 <= j && j < $i && childMatch(g, j, rect)))
+//@   loop 0 assert collChild(g, $i) == child && KidInv(child)
+
+// ---------------------------------------------------------------- Point probes
+//@ spec func qPoint(a geometry.Point) geometry.Rect { geometry.mkRect(a, a) }
+// composition laws (C10): within = non-empty and every child within; intersects = some non-empty child intersects
+//@ spec func allWithinPointUpTo(c *collection, a geometry.Point, k int) bool rec { k <= 0 || (allWithinPointUpTo(c,a,k-1) && spWithinPoint(oSpatial(collChild(c,k-1)), a)) }
+//@ spec func anyIxPointUpTo(c *collection, a geometry.Point, k int) bool rec { k > 0 && (anyIxPointUpTo(c,a,k-1) || (!oEmpty(collChild(c,k-1)) && spIntersectsPoint(oSpatial(collChild(c,k-1)), a))) }
+//@ spec func collWithinPointLaw(c *collection, a geometry.Point) bool { !c.pempty && allWithinPointUpTo(c, a, collN(c)) }
+//@ spec func collIntersectsPointLaw(c *collection, a geometry.Point) bool { anyIxPointUpTo(c, a, collN(c)) }
+//@ spec func collWithinPointS(c *collection, a geometry.Point) bool { collWithinPointLaw(c, a) }
+//@ spec func collIntersectsPointS(c *collection, a geometry.Point) bool { collIntersectsPointLaw(c, a) }
+
+// interface-level requirements on children (A-WITHIN-RECT / A-INTERSECTS-RECT of DESIGN.md section 5 C10): a well-formed object that is
+// within / intersects the probe is non-empty and its rectangle meets the probe's rectangle (what makes the rectangle pre-filter of Search sound)
+//@ axiom AWithinPoint(o Object, a geometry.Point)
+//@   requires KidInv(o) && true
+//@   ensures spWithinPoint(oSpatial(o), a) ==> (!oEmpty(o) && geometry.rectsMeet(oRect(o), qPoint(a)))
+//@ axiom AIntersectsPoint(o Object, a geometry.Point)
+//@   requires KidInv(o) && true
+//@   ensures (!oEmpty(o) && spIntersectsPoint(oSpatial(o), a)) ==> geometry.rectsMeet(oRect(o), qPoint(a))
+
+//@ lemma withinFoldPoint(seen set, c *collection, a geometry.Point, k int)
+//@   props C10
+//@   requires CollKidsInv(c) && true && 0 <= k && k <= collN(c)
+//@   requires forall j int :: (0 <= j && j < collN(c) && childMatch(c, j, qPoint(a))) ==> seen[j]
+//@   requires forall j int :: seen[j] ==> spWithinPoint(oSpatial(collChild(c,j)), a)
+//@   ensures (cardSeen(seen, k) == k) == allWithinPointUpTo(c, a, k)
+//@   induction k
+//@   use cardLe(seen, k-1)
+//@   use kidInv(c, k-1)
+//@   use AWithinPoint(collChild(c,k-1), a)
+//@ lemma withinWitnessPoint(c *collection, a geometry.Point, i int, k int)
+//@   props C10
+//@   requires 0 <= i && i < k && !spWithinPoint(oSpatial(collChild(c,i)), a)
+//@   ensures !allWithinPointUpTo(c, a, k)
+//@   induction k
+//@ lemma ixFoldPoint(seen set, c *collection, a geometry.Point, k int)
+//@   props C10
+//@   requires CollKidsInv(c) && true && k <= collN(c)
+//@   requires forall j int :: (0 <= j && j < collN(c) && childMatch(c, j, qPoint(a))) ==> seen[j]
+//@   requires forall j int :: seen[j] ==> !spIntersectsPoint(oSpatial(collChild(c,j)), a)
+//@   ensures !anyIxPointUpTo(c, a, k)
+//@   induction k
+//@   use kidInv(c, k-1)
+//@   use AIntersectsPoint(collChild(c,k-1), a)
+//@ lemma ixWitnessPoint(c *collection, a geometry.Point, i int, k int)
+//@   props C10
+//@   requires 0 <= i && i < k && !oEmpty(collChild(c,i)) && spIntersectsPoint(oSpatial(collChild(c,i)), a)
+//@   ensures anyIxPointUpTo(c, a, k)
+//@   induction k
+
+//@ func collection.WithinPoint
+//@   props C10 C09
+//@   arith order
+//@   requires CollInv(g)
+//@   ensures result == collWithinPointS(g, point)
+//@   entry use cardEmpty(collN(g))
+//@   call 2 iterinv withinCount == cardSeen(seen, collN(g)) && (forall j int :: seen[j] ==> spWithinPoint(oSpatial(collChild(g,j)), point))
+//@   call 2 iterstop withinCount < collN(g) && !allWithinPointUpTo(g, point, collN(g))
+//@   call 2 use cardStore(seen, $idx, collN(g))
+//@   call 2 use cardMissing(seen, $idx, collN(g))
+//@   call 2 use withinWitnessPoint(g, point, $idx, collN(g))
+//@   call 2 use kidInv(g, $idx)
+//@   call 2 after use withinFoldPoint(seen, g, point, collN(g))
+
+//@ func collection.IntersectsPoint
+//@   props C10 C09
+//@   arith order
+//@   requires CollInv(g)
+//@   ensures result == collIntersectsPointS(g, point)
+//@   call 1 iterinv !intersects && (forall j int :: seen[j] ==> !spIntersectsPoint(oSpatial(collChild(g,j)), point))
+//@   call 1 iterstop intersects && anyIxPointUpTo(g, point, collN(g))
+//@   call 1 use ixWitnessPoint(g, point, $idx, collN(g))
+//@   call 1 use kidInv(g, $idx)
+//@   call 1 after use ixFoldPoint(seen, g, point, collN(g))
+
+// ---------------------------------------------------------------- Rect probes
+//@ spec func qRect(a geometry.Rect) geometry.Rect { a }
+// composition laws (C10): within = non-empty and every child within; intersects = some non-empty child intersects
+//@ spec func allWithinRectUpTo(c *collection, a geometry.Rect, k int) bool rec { k <= 0 || (allWithinRectUpTo(c,a,k-1) && spWithinRect(oSpatial(collChild(c,k-1)), a)) }
+//@ spec func anyIxRectUpTo(c *collection, a geometry.Rect, k int) bool rec { k > 0 && (anyIxRectUpTo(c,a,k-1) || (!oEmpty(collChild(c,k-1)) && spIntersectsRect(oSpatial(collChild(c,k-1)), a))) }
+//@ spec func collWithinRectLaw(c *collection, a geometry.Rect) bool { !c.pempty && allWithinRectUpTo(c, a, collN(c)) }
+//@ spec func collIntersectsRectLaw(c *collection, a geometry.Rect) bool { anyIxRectUpTo(c, a, collN(c)) }
+//@ spec func collWithinRectS(c *collection, a geometry.Rect) bool { collWithinRectLaw(c, a) }
+//@ spec func collIntersectsRectS(c *collection, a geometry.Rect) bool { collIntersectsRectLaw(c, a) }
+
+// interface-level requirements on children (A-WITHIN-RECT / A-INTERSECTS-RECT of DESIGN.md section 5 C10): a well-formed object that is
+// within / intersects the probe is non-empty and its rectangle meets the probe's rectangle (what makes the rectangle pre-filter of Search sound)
+//@ axiom AWithinRect(o Object, a geometry.Rect)
+//@   requires KidInv(o) && true
+//@   ensures spWithinRect(oSpatial(o), a) ==> (!oEmpty(o) && geometry.rectsMeet(oRect(o), qRect(a)))
+//@ axiom AIntersectsRect(o Object, a geometry.Rect)
+//@   requires KidInv(o) && true
+//@   ensures (!oEmpty(o) && spIntersectsRect(oSpatial(o), a)) ==> geometry.rectsMeet(oRect(o), qRect(a))
+
+//@ lemma withinFoldRect(seen set, c *collection, a geometry.Rect, k int)
+//@   props C10
+//@   requires CollKidsInv(c) && true && 0 <= k && k <= collN(c)
+//@   requires forall j int :: (0 <= j && j < collN(c) && childMatch(c, j, qRect(a))) ==> seen[j]
+//@   requires forall j int :: seen[j] ==> spWithinRect(oSpatial(collChild(c,j)), a)
+//@   ensures (cardSeen(seen, k) == k) == allWithinRectUpTo(c, a, k)
+//@   induction k
+//@   use cardLe(seen, k-1)
+//@   use kidInv(c, k-1)
+//@   use AWithinRect(collChild(c,k-1), a)
+//@ lemma withinWitnessRect(c *collection, a geometry.Rect, i int, k int)
+//@   props C10
+//@   requires 0 <= i && i < k && !spWithinRect(oSpatial(collChild(c,i)), a)
+//@   ensures !allWithinRectUpTo(c, a, k)
+//@   induction k
+//@ lemma ixFoldRect(seen set, c *collection, a geometry.Rect, k int)
+//@   props C10
+//@   requires CollKidsInv(c) && true && k <= collN(c)
+//@   requires forall j int :: (0 <= j && j < collN(c) && childMatch(c, j, qRect(a))) ==> seen[j]
+//@   requires forall j int :: seen[j] ==> !spIntersectsRect(oSpatial(collChild(c,j)), a)
+//@   ensures !anyIxRectUpTo(c, a, k)
+//@   induction k
+//@   use kidInv(c, k-1)
+//@   use AIntersectsRect(collChild(c,k-1), a)
+//@ lemma ixWitnessRect(c *collection, a geometry.Rect, i int, k int)
+//@   props C10
+//@   requires 0 <= i && i < k && !oEmpty(collChild(c,i)) && spIntersectsRect(oSpatial(collChild(c,i)), a)
+//@   ensures anyIxRectUpTo(c, a, k)
+//@   induction k
+
+//@ func collection.WithinRect
+//@   props C10 C09
+//@   arith order
+//@   requires CollInv(g)
+//@   requires geometry.rectOK(rect)
+//@   ensures result == collWithinRectS(g, rect)
+//@   entry use cardEmpty(collN(g))
+//@   call 1 iterinv withinCount == cardSeen(seen, collN(g)) && (forall j int :: seen[j] ==> spWithinRect(oSpatial(collChild(g,j)), rect))
+//@   call 1 iterstop withinCount < collN(g) && !allWithinRectUpTo(g, rect, collN(g))
+//@   call 1 use cardStore(seen, $idx, collN(g))
+//@   call 1 use cardMissing(seen, $idx, collN(g))
+//@   call 1 use withinWitnessRect(g, rect, $idx, collN(g))
+//@   call 1 use kidInv(g, $idx)
+//@   call 1 after use withinFoldRect(seen, g, rect, collN(g))
+
+//@ func collection.IntersectsRect
+//@   props C10 C09
+//@   arith order
+//@   requires CollInv(g)
+//@   requires geometry.rectOK(rect)
+//@   ensures result == collIntersectsRectS(g, rect)
+//@   call 0 iterinv !intersects && (forall j int :: seen[j] ==> !spIntersectsRect(oSpatial(collChild(g,j)), rect))
+//@   call 0 iterstop intersects && anyIxRectUpTo(g, rect, collN(g))
+//@   call 0 use ixWitnessRect(g, rect, $idx, collN(g))
+//@   call 0 use kidInv(g, $idx)
+//@   call 0 after use ixFoldRect(seen, g, rect, collN(g))
+
+// ---------------------------------------------------------------- Line probes
+//@ spec func qLine(a *geometry.Line) geometry.Rect { lineRectS(a) }
+// composition laws (C10): within = non-empty and every child within; intersects = some non-empty child intersects
+//@ spec func allWithinLineUpTo(c *collection, a *geometry.Line, k int) bool rec { k <= 0 || (allWithinLineUpTo(c,a,k-1) && spWithinLine(oSpatial(collChild(c,k-1)), a)) }
+//@ spec func anyIxLineUpTo(c *collection, a *geometry.Line, k int) bool rec { k > 0 && (anyIxLineUpTo(c,a,k-1) || (!oEmpty(collChild(c,k-1)) && spIntersectsLine(oSpatial(collChild(c,k-1)), a))) }
+//@ spec func collWithinLineLaw(c *collection, a *geometry.Line) bool { !c.pempty && allWithinLineUpTo(c, a, collN(c)) }
+//@ spec func collIntersectsLineLaw(c *collection, a *geometry.Line) bool { anyIxLineUpTo(c, a, collN(c)) }
+//@ spec func collWithinLineS(c *collection, a *geometry.Line) bool { collWithinLineLaw(c, a) }
+//@ spec func collIntersectsLineS(c *collection, a *geometry.Line) bool { collIntersectsLineLaw(c, a) }
+
+// interface-level requirements on children (A-WITHIN-RECT / A-INTERSECTS-RECT of DESIGN.md section 5 C10): a well-formed object that is
+// within / intersects the probe is non-empty and its rectangle meets the probe's rectangle (what makes the rectangle pre-filter of Search sound)
+//@ axiom AWithinLine(o Object, a *geometry.Line)
+//@   requires KidInv(o) && geometry.LineInv(a)
+//@   ensures spWithinLine(oSpatial(o), a) ==> (!oEmpty(o) && geometry.rectsMeet(oRect(o), qLine(a)))
+//@ axiom AIntersectsLine(o Object, a *geometry.Line)
+//@   requires KidInv(o) && geometry.LineInv(a)
+//@   ensures (!oEmpty(o) && spIntersectsLine(oSpatial(o), a)) ==> geometry.rectsMeet(oRect(o), qLine(a))
+
+//@ lemma withinFoldLine(seen set, c *collection, a *geometry.Line, k int)
+//@   props C10
+//@   requires CollKidsInv(c) && geometry.LineInv(a) && 0 <= k && k <= collN(c)
+//@   requires forall j int :: (0 <= j && j < collN(c) && childMatch(c, j, qLine(a))) ==> seen[j]
+//@   requires forall j int :: seen[j] ==> spWithinLine(oSpatial(collChild(c,j)), a)
+//@   ensures (cardSeen(seen, k) == k) == allWithinLineUpTo(c, a, k)
+//@   induction k
+//@   use cardLe(seen, k-1)
+//@   use kidInv(c, k-1)
+//@   use AWithinLine(collChild(c,k-1), a)
+//@ lemma withinWitnessLine(c *collection, a *geometry.Line, i int, k int)
+//@   props C10
+//@   requires 0 <= i && i < k && !spWithinLine(oSpatial(collChild(c,i)), a)
+//@   ensures !allWithinLineUpTo(c, a, k)
+//@   induction k
+//@ lemma ixFoldLine(seen set, c *collection, a *geometry.Line, k int)
+//@   props C10
+//@   requires CollKidsInv(c) && geometry.LineInv(a) && k <= collN(c)
+//@   requires forall j int :: (0 <= j && j < collN(c) && childMatch(c, j, qLine(a))) ==> seen[j]
+//@   requires forall j int :: seen[j] ==> !spIntersectsLine(oSpatial(collChild(c,j)), a)
+//@   ensures !anyIxLineUpTo(c, a, k)
+//@   induction k
+//@   use kidInv(c, k-1)
+//@   use AIntersectsLine(collChild(c,k-1), a)
+//@ lemma ixWitnessLine(c *collection, a *geometry.Line, i int, k int)
+//@   props C10
+//@   requires 0 <= i && i < k && !oEmpty(collChild(c,i)) && spIntersectsLine(oSpatial(collChild(c,i)), a)
+//@   ensures anyIxLineUpTo(c, a, k)
+//@   induction k
+
+//@ func collection.WithinLine
+//@   props C10 C09
+//@   arith order
+//@   requires CollInv(g)
+//@   requires geometry.LineInv(line)
+//@   ensures result == collWithinLineS(g, line)
+//@   entry use cardEmpty(collN(g))
+//@   call 2 iterinv withinCount == cardSeen(seen, collN(g)) && (forall j int :: seen[j] ==> spWithinLine(oSpatial(collChild(g,j)), line))
+//@   call 2 iterstop withinCount < collN(g) && !allWithinLineUpTo(g, line, collN(g))
+//@   call 2 use cardStore(seen, $idx, collN(g))
+//@   call 2 use cardMissing(seen, $idx, collN(g))
+//@   call 2 use withinWitnessLine(g, line, $idx, collN(g))
+//@   call 2 use kidInv(g, $idx)
+//@   call 2 after use withinFoldLine(seen, g, line, collN(g))
+
+//@ func collection.IntersectsLine
+//@   props C10 C09
+//@   arith order
+//@   requires CollInv(g)
+//@   requires geometry.LineInv(line)
+//@   ensures result == collIntersectsLineS(g, line)
+//@   call 1 iterinv !intersects && (forall j int :: seen[j] ==> !spIntersectsLine(oSpatial(collChild(g,j)), line))
+//@   call 1 iterstop intersects && anyIxLineUpTo(g, line, collN(g))
+//@   call 1 use ixWitnessLine(g, line, $idx, collN(g))
+//@   call 1 use kidInv(g, $idx)
+//@   call 1 after use ixFoldLine(seen, g, line, collN(g))
+
+// ---------------------------------------------------------------- Poly probes
+//@ spec func qPoly(a *geometry.Poly) geometry.Rect { polyRectS(a) }
+// composition laws (C10): within = non-empty and every child within; intersects = some non-empty child intersects
+//@ spec func allWithinPolyUpTo(c *collection, a *geometry.Poly, k int) bool rec { k <= 0 || (allWithinPolyUpTo(c,a,k-1) && spWithinPoly(oSpatial(collChild(c,k-1)), a)) }
+//@ spec func anyIxPolyUpTo(c *collection, a *geometry.Poly, k int) bool rec { k > 0 && (anyIxPolyUpTo(c,a,k-1) || (!oEmpty(collChild(c,k-1)) && spIntersectsPoly(oSpatial(collChild(c,k-1)), a))) }
+//@ spec func collWithinPolyLaw(c *collection, a *geometry.Poly) bool { !c.pempty && allWithinPolyUpTo(c, a, collN(c)) }
+//@ spec func collIntersectsPolyLaw(c *collection, a *geometry.Poly) bool { anyIxPolyUpTo(c, a, collN(c)) }
+//@ spec func collWithinPolyS(c *collection, a *geometry.Poly) bool { collWithinPolyLaw(c, a) }
+//@ spec func collIntersectsPolyS(c *collection, a *geometry.Poly) bool { collIntersectsPolyLaw(c, a) }
+
+// interface-level requirements on children (A-WITHIN-RECT / A-INTERSECTS-RECT of DESIGN.md section 5 C10): a well-formed object that is
+// within / intersects the probe is non-empty and its rectangle meets the probe's rectangle (what makes the rectangle pre-filter of Search sound)
+//@ axiom AWithinPoly(o Object, a *geometry.Poly)
+//@   requires KidInv(o) && (a != nil ==> geometry.PolyInv(a))
+//@   ensures spWithinPoly(oSpatial(o), a) ==> (!oEmpty(o) && geometry.rectsMeet(oRect(o), qPoly(a)))
+//@ axiom AIntersectsPoly(o Object, a *geometry.Poly)
+//@   requires KidInv(o) && (a != nil ==> geometry.PolyInv(a))
+//@   ensures (!oEmpty(o) && spIntersectsPoly(oSpatial(o), a)) ==> geometry.rectsMeet(oRect(o), qPoly(a))
+
+//@ lemma withinFoldPoly(seen set, c *collection, a *geometry.Poly, k int)
+//@   props C10
+//@   requires CollKidsInv(c) && (a != nil ==> geometry.PolyInv(a)) && 0 <= k && k <= collN(c)
+//@   requires forall j int :: (0 <= j && j < collN(c) && childMatch(c, j, qPoly(a))) ==> seen[j]
+//@   requires forall j int :: seen[j] ==> spWithinPoly(oSpatial(collChild(c,j)), a)
+//@   ensures (cardSeen(seen, k) == k) == allWithinPolyUpTo(c, a, k)
+//@   induction k
+//@   use cardLe(seen, k-1)
+//@   use kidInv(c, k-1)
+//@   use AWithinPoly(collChild(c,k-1), a)
+//@ lemma withinWitnessPoly(c *collection, a *geometry.Poly, i int, k int)
+//@   props C10
+//@   requires 0 <= i && i < k && !spWithinPoly(oSpatial(collChild(c,i)), a)
+//@   ensures !allWithinPolyUpTo(c, a, k)
+//@   induction k
+//@ lemma ixFoldPoly(seen set, c *collection, a *geometry.Poly, k int)
+//@   props C10
+//@   requires CollKidsInv(c) && (a != nil ==> geometry.PolyInv(a)) && k <= collN(c)
+//@   requires forall j int :: (0 <= j && j < collN(c) && childMatch(c, j, qPoly(a))) ==> seen[j]
+//@   requires forall j int :: seen[j] ==> !spIntersectsPoly(oSpatial(collChild(c,j)), a)
+//@   ensures !anyIxPolyUpTo(c, a, k)
+//@   induction k
+//@   use kidInv(c, k-1)
+//@   use AIntersectsPoly(collChild(c,k-1), a)
+//@ lemma ixWitnessPoly(c *collection, a *geometry.Poly, i int, k int)
+//@   props C10
+//@   requires 0 <= i && i < k && !oEmpty(collChild(c,i)) && spIntersectsPoly(oSpatial(collChild(c,i)), a)
+//@   ensures anyIxPolyUpTo(c, a, k)
+//@   induction k
+
+//@ func collection.WithinPoly
+//@   props C10 C09
+//@   arith order
+//@   requires CollInv(g)
+//@   requires poly != nil ==> geometry.PolyInv(poly)
+//@   ensures result == collWithinPolyS(g, poly)
+//@   entry use cardEmpty(collN(g))
+//@   call 2 iterinv withinCount == cardSeen(seen, collN(g)) && (forall j int :: seen[j] ==> spWithinPoly(oSpatial(collChild(g,j)), poly))
+//@   call 2 iterstop withinCount < collN(g) && !allWithinPolyUpTo(g, poly, collN(g))
+//@   call 2 use cardStore(seen, $idx, collN(g))
+//@   call 2 use cardMissing(seen, $idx, collN(g))
+//@   call 2 use withinWitnessPoly(g, poly, $idx, collN(g))
+//@   call 2 use kidInv(g, $idx)
+//@   call 2 after use withinFoldPoly(seen, g, poly, collN(g))
+
+//@ func collection.IntersectsPoly
+//@   props C10 C09
+//@   arith order
+//@   requires CollInv(g)
+//@   requires poly != nil ==> geometry.PolyInv(poly)
+//@   ensures result == collIntersectsPolyS(g, poly)
+//@   call 1 iterinv !intersects && (forall j int :: seen[j] ==> !spIntersectsPoly(oSpatial(collChild(g,j)), poly))
+//@   call 1 iterstop intersects && anyIxPolyUpTo(g, poly, collN(g))
+//@   call 1 use ixWitnessPoly(g, poly, $idx, collN(g))
+//@   call 1 use kidInv(g, $idx)
+//@   call 1 after use ixFoldPoly(seen, g, poly, collN(g))
+
+// ---------------------------------------------------------------- NumPoints / Valid
+// composition laws: sum of the children's point counts; valid iff every child is valid (C11: every position in range)
+//@ spec func sumNumPointsUpTo(c *collection, k int) int rec { ite(k <= 0, 0, sumNumPointsUpTo(c,k-1) + oNumPointsS(collChild(c,k-1))) }
+//@ spec func allValidUpTo(c *collection, k int) bool rec { k <= 0 || (allValidUpTo(c,k-1) && oValidS(collChild(c,k-1))) }
+//@ spec func collNumPointsLaw(c *collection) int { sumNumPointsUpTo(c, collN(c)) }
+//@ spec func collValidLaw(c *collection) bool { allValidUpTo(c, collN(c)) }
+//@ spec func collNumPointsS(c *collection) int { collNumPointsLaw(c) }
+//@ spec func collValidS(c *collection) bool { collValidLaw(c) }
+
+//@ func collection.NumPoints
+//@   props C10 C05
+//@   arith order
+//@   requires g != nil && CollKidsInv(g)
+//@   ensures result == collNumPointsS(g)
+//@   loop 0 invariant n == sumNumPointsUpTo(g, $i)
+//@   loop 0 assert collChild(g, $i) == child && ObjInv(child)
+
+// F11 (fixed by a3b9933): the code used to look only at the cached union rectangle of the NON-EMPTY children; the law (C11) quantifies over
+// every position. Law is the obligation that failed.
+//@ func collection.Valid
+//@   props C10 C11
+//@   arith order
+//@   requires g != nil && CollKidsInv(g)
+//@   ensures Law: result == collValidS(g)
+//@   ret use allValidWitnessC(g, $i, collN(g))
+//@   loop 0 invariant allValidUpTo(g, $i)
+//@   loop 0 assert collChild(g, $i) == child && ObjInv(child)
+
+//@ lemma allValidWitnessC(c *collection, j int, k int)
+//@   props C10 C11
+//@   requires 0 <= j && j < k && !oValidS(collChild(c,j))
+//@   ensures !allValidUpTo(c, k)
+//@   induction k
+//@ func MultiLineString.Valid
+//@   props C10 C11
+//@   arith order
+//@   requires g != nil && CollKidsInv(g.collection)
+//@   ensures result == collValidS(g.collection)
+//@   loop 0 invariant valid == allValidUpTo(g.collection, $i)
+//@   loop 0 assert collChild(g.collection, $i) == p && ObjInv(p)
+//@ func MultiPolygon.Valid
+//@   props C10 C11
+//@   arith order
+//@   requires g != nil && CollKidsInv(g.collection)
+//@   ensures result == collValidS(g.collection)
+//@   loop 0 invariant valid == allValidUpTo(g.collection, $i)
+//@   loop 0 assert collChild(g.collection, $i) == p && ObjInv(p)
+
+// ---------------------------------------------------------------- ForEach
+//@ func Object.ForEach
+//@   props C10 C05
+//@   requires ObjInv(self)
+//@   iter iter(idx) dom 0 <= idx && idx < oNParts(self) ; match partOK(self, idx) ; args oPart(self, idx)
+//@   ensures result == !stopped
+//@   ensures Parts: !stopped ==> (forall i int :: 0 <= i && i < oNParts(self) ==> partOK(self, i))
+//@ func Point.ForEach
+//@   props C10 C05
+//@   arith order
+//@   requires ObjInv(g)
+//@   iter iter(idx) dom 0 <= idx && idx < 1 ; match ObjInv(g) ; args g ; at 0
+//@   ensures result == !stopped
+//@   ensures Parts: !stopped ==> (forall i int :: 0 <= i && i < 1 ==> ObjInv(g))
+//@ func SimplePoint.ForEach
+//@   props C10 C05
+//@   arith order
+//@   requires ObjInv(g)
+//@   iter iter(idx) dom 0 <= idx && idx < 1 ; match ObjInv(g) ; args g ; at 0
+//@   ensures result == !stopped
+//@   ensures Parts: !stopped ==> (forall i int :: 0 <= i && i < 1 ==> ObjInv(g))
+//@ func LineString.ForEach
+//@   props C10 C05
+//@   arith order
+//@   requires ObjInv(g)
+//@   iter iter(idx) dom 0 <= idx && idx < 1 ; match ObjInv(g) ; args g ; at 0
+//@   ensures result == !stopped
+//@   ensures Parts: !stopped ==> (forall i int :: 0 <= i && i < 1 ==> ObjInv(g))
+//@ func Polygon.ForEach
+//@   props C10 C05
+//@   arith order
+//@   requires ObjInv(g)
+//@   iter iter(idx) dom 0 <= idx && idx < 1 ; match ObjInv(g) ; args g ; at 0
+//@   ensures result == !stopped
+//@   ensures Parts: !stopped ==> (forall i int :: 0 <= i && i < 1 ==> ObjInv(g))
+//@ func Rect.ForEach
+//@   props C10 C05
+//@   arith order
+//@   requires ObjInv(g)
+//@   iter iter(idx) dom 0 <= idx && idx < 1 ; match ObjInv(g) ; args g ; at 0
+//@   ensures result == !stopped
+//@   ensures Parts: !stopped ==> (forall i int :: 0 <= i && i < 1 ==> ObjInv(g))
+//@ func Feature.ForEach
+//@   props C10 C05
+//@   arith order
+//@   requires ObjInv(g)
+//@   iter iter(idx) dom 0 <= idx && idx < 1 ; match ObjInv(g) ; args g ; at 0
+//@   ensures result == !stopped
+//@   ensures Parts: !stopped ==> (forall i int :: 0 <= i && i < 1 ==> ObjInv(g))
+//@ func Circle.ForEach
+//@   props C10 C05
+//@   arith order
+//@   requires ObjInv(g)
+//@   iter iter(idx) dom 0 <= idx && idx < 1 ; match ObjInv(g) ; args g ; at 0
+//@   ensures result == !stopped
+//@   ensures Parts: !stopped ==> (forall i int :: 0 <= i && i < 1 ==> ObjInv(g))
+
+
+//@ lemma partsNonneg(c *collection, k int)
+//@   props C10
+//@   requires CollKidsInv(c) && k <= collN(c)
+//@   ensures 0 <= partsUpTo(c, k)
+//@   induction k
+//@   use kidInv(c, k-1)
+//@ lemma partsMono(c *collection, k1 int, k2 int)
+//@   props C10
+//@   requires CollKidsInv(c) && 0 <= k1 && k1 <= k2 && k2 <= collN(c)
+//@   ensures 0 <= partsUpTo(c, k1) && partsUpTo(c, k1) <= partsUpTo(c, k2)
+//@   induction k2
+//@   use kidInv(c, k2-1)
+//@   use partsNonneg(c, k1)
+// the parts of child k occupy the index range [partsUpTo(c,k), partsUpTo(c,k+1)) of the collection
+//@ lemma partAtAbs(c *collection, n int, k int, j int)
+//@   props C10
+//@   requires CollKidsInv(c) && 0 <= k && k < n && n <= collN(c) && partsUpTo(c, k) <= j && j < partsUpTo(c, k+1)
+//@   ensures partAt(c, n, j) == oPart(collChild(c,k), j - partsUpTo(c, k))
+//@   induction n
+//@   use partsMono(c, k+1, n-1)
+
+//@ func collection.ForEach
+//@   props C10 C05
+//@   arith order
+//@   requires g != nil && CollKidsInv(g)
+//@   iter iter(idx) dom 0 <= idx && idx < partsUpTo(g, collN(g)) ; match ObjInv(partAt(g, collN(g), idx)) ; args partAt(g, collN(g), idx)
+//@   ensures result == !stopped
+//@   ensures Parts: !stopped ==> (forall i int :: 0 <= i && i < partsUpTo(g, collN(g)) ==> ObjInv(partAt(g, collN(g), i)))
+//@   call 0 shift partsUpTo(g, $i)
+//@   loop 0 invariant !stopped
+//@   loop 0 invariant forall j int :: seen[j] == (old(seen)[j] || (0 <= j && j < partsUpTo(g, $i)))
+//@   loop 0 invariant forall j int :: (0 <= j && j < partsUpTo(g, $i)) ==> ObjInv(partAt(g, collN(g), j))
+//@   loop 0 assert collChild(g, $i) == child && ObjInv(child)
+//@   loop 0 begin use partsMono(g, $i, $i+1)
+//@   loop 0 begin use partsMono(g, $i+1, collN(g))
+//@   loop 0 begin use partsMono(g, 0, $i)
+//@   loop 0 begin use forall j int :: partAtAbs(g, collN(g), $i, j)
+//@   proto use partsMono(g, $i+1, collN(g))
+
+// ---------------------------------------------------------------- Intersects(obj): some non-empty child intersects some non-empty part of obj
+//@ spec func anyChildIxUpTo(c *collection, b Object, k int) bool rec { k > 0 && (anyChildIxUpTo(c,b,k-1) || (!oEmpty(collChild(c,k-1)) && oIntersects(collChild(c,k-1), b))) }
+//@ spec func partIx(c *collection, b Object, p int) bool { !oEmpty(oPart(b, p)) && anyChildIxUpTo(c, oPart(b, p), collN(c)) }
+//@ spec func anyPartIxUpTo(c *collection, b Object, m int) bool rec { m > 0 && (anyPartIxUpTo(c,b,m-1) || partIx(c, b, m-1)) }
+//@ spec func collIntersectsLaw(c *collection, b Object) bool { anyPartIxUpTo(c, b, oNParts(b)) }
+//@ spec func collIntersectsS(c *collection, b Object) bool { collIntersectsLaw(c, b) }
+
+// interface-level requirement (A-INTERSECTS-RECT, object form): a non-empty well-formed child that intersects a non-empty object has a rectangle meeting that object's rectangle
+//@ axiom AIntersectsObj(o Object, b Object)
+//@   requires KidInv(o) && ObjInv(b) && !oEmpty(b)
+//@   ensures (!oEmpty(o) && oIntersects(o, b)) ==> geometry.rectsMeet(oRect(o), oRect(b))
+
+//@ lemma childIxWitness(c *collection, b Object, i int, k int)
+//@   props C10
+//@   requires 0 <= i && i < k && !oEmpty(collChild(c,i)) && oIntersects(collChild(c,i), b)
+//@   ensures anyChildIxUpTo(c, b, k)
+//@   induction k
+//@ lemma childIxFold(seen set, c *collection, b Object, k int)
+//@   props C10
+//@   requires CollKidsInv(c) && ObjInv(b) && !oEmpty(b) && k <= collN(c)
+//@   requires forall j int :: (0 <= j && j < collN(c) && childMatch(c, j, oRect(b))) ==> seen[j]
+//@   requires forall j int :: seen[j] ==> !oIntersects(collChild(c,j), b)
+//@   ensures !anyChildIxUpTo(c, b, k)
+//@   induction k
+//@   use kidInv(c, k-1)
+//@   use AIntersectsObj(collChild(c,k-1), b)
+//@ lemma partIxWitness(c *collection, b Object, p int, m int)
+//@   props C10
+//@   requires 0 <= p && p < m && partIx(c, b, p)
+//@   ensures anyPartIxUpTo(c, b, m)
+//@   induction m
+//@ lemma partIxFold(seen set, c *collection, b Object, m int)
+//@   props C10
+//@   requires m <= oNParts(b)
+//@   requires forall p int :: (0 <= p && p < oNParts(b)) ==> seen[p]
+//@   requires forall p int :: seen[p] ==> !partIx(c, b, p)
+//@   ensures !anyPartIxUpTo(c, b, m)
+//@   induction m
+
+//@ func collection.Intersects
+//@   props C10 C09
+//@   arith order
+//@   requires CollInv(g) && ObjInv(obj)
+//@   ensures result == collIntersectsS(g, obj)
+//@   call 0 iterinv !intersects && (forall p int :: seen[p] ==> !partIx(g, obj, p))
+//@   call 0 iterstop intersects && anyPartIxUpTo(g, obj, oNParts(obj))
+//@   call 0 use partIxWitness(g, obj, $idx, oNParts(obj))
+//@   call 0 after use partIxFold(seen, g, obj, oNParts(obj))
+//@   call 3 iterinv !intersects && (forall j int :: seen[j] ==> !oIntersects(collChild(g,j), geom))
+//@   call 3 iterstop intersects && anyChildIxUpTo(g, geom, collN(g))
+//@   call 3 use childIxWitness(g, geom, $idx, collN(g))
+//@   call 3 use kidInv(g, $idx)
+//@   call 3 after use childIxFold(seen, g, geom, collN(g))
+
+// ---------------------------------------------------------------- Contains(obj): the collection is non-empty, obj has a non-empty part, and every non-empty part of obj is contained by some child
+//@ spec func anyChildContainsUpTo(c *collection, b Object, k int) bool rec { k > 0 && (anyChildContainsUpTo(c,b,k-1) || oContains(collChild(c,k-1), b)) }
+//@ spec func partContained(c *collection, b Object, p int) bool { oEmpty(oPart(b, p)) || anyChildContainsUpTo(c, oPart(b, p), collN(c)) }
+//@ spec func allPartsContainedUpTo(c *collection, b Object, m int) bool rec { m <= 0 || (allPartsContainedUpTo(c,b,m-1) && partContained(c, b, m-1)) }
+//@ spec func anyPartNonEmptyUpTo(b Object, m int) bool rec { m > 0 && (anyPartNonEmptyUpTo(b,m-1) || !oEmpty(oPart(b, m-1))) }
+//@ spec func collContainsLaw(c *collection, b Object) bool { !c.pempty && anyPartNonEmptyUpTo(b, oNParts(b)) && allPartsContainedUpTo(c, b, oNParts(b)) }
+//@ spec func collContainsS(c *collection, b Object) bool { collContainsLaw(c, b) }
+// non-empty parts among the reported set
+//@ spec func anySeenNonEmpty(seen set, b Object, m int) bool rec { m > 0 && (anySeenNonEmpty(seen,b,m-1) || (seen[m-1] && !oEmpty(oPart(b, m-1)))) }
+
+// interface-level requirement (A-CONTAINS-RECT): a well-formed child that contains a non-empty object is non-empty and its rectangle meets that object's rectangle
+//@ axiom AContainsObj(o Object, b Object)
+//@   requires KidInv(o) && ObjInv(b) && !oEmpty(b)
+//@   ensures oContains(o, b) ==> (!oEmpty(o) && geometry.rectsMeet(oRect(o), oRect(b)))
+
+//@ lemma childContainsWitness(c *collection, b Object, i int, k int)
+//@   props C10
+//@   requires 0 <= i && i < k && oContains(collChild(c,i), b)
+//@   ensures anyChildContainsUpTo(c, b, k)
+//@   induction k
+//@ lemma childContainsFold(seen set, c *collection, b Object, k int)
+//@   props C10
+//@   requires CollKidsInv(c) && ObjInv(b) && !oEmpty(b) && k <= collN(c)
+//@   requires forall j int :: (0 <= j && j < collN(c) && childMatch(c, j, oRect(b))) ==> seen[j]
+//@   requires forall j int :: seen[j] ==> !oContains(collChild(c,j), b)
+//@   ensures !anyChildContainsUpTo(c, b, k)
+//@   induction k
+//@   use kidInv(c, k-1)
+//@   use AContainsObj(collChild(c,k-1), b)
+//@ lemma partNotContainedWitness(c *collection, b Object, p int, m int)
+//@   props C10
+//@   requires 0 <= p && p < m && !partContained(c, b, p)
+//@   ensures !allPartsContainedUpTo(c, b, m)
+//@   induction m
+//@ lemma allPartsContainedFold(seen set, c *collection, b Object, m int)
+//@   props C10
+//@   requires m <= oNParts(b)
+//@   requires forall p int :: (0 <= p && p < oNParts(b)) ==> seen[p]
+//@   requires forall p int :: seen[p] ==> partContained(c, b, p)
+//@   ensures allPartsContainedUpTo(c, b, m)
+//@   induction m
+//@ lemma anySeenEmpty(b Object, m int)
+//@   props C10
+//@   ensures !anySeenNonEmpty(emptyset, b, m)
+//@   induction m
+//@ lemma anySeenStore(seen set, b Object, i int, m int)
+//@   props C10
+//@   requires !seen[i] && 0 <= i
+//@   ensures anySeenNonEmpty(store(seen,i,true), b, m) == (anySeenNonEmpty(seen, b, m) || (i < m && !oEmpty(oPart(b, i))))
+//@   induction m
+//@ lemma anySeenFull(seen set, b Object, m int)
+//@   props C10
+//@   requires m <= oNParts(b)
+//@   requires forall p int :: (0 <= p && p < oNParts(b)) ==> seen[p]
+//@   ensures anySeenNonEmpty(seen, b, m) == anyPartNonEmptyUpTo(b, m)
+//@   induction m
+
+//@ func collection.Contains
+//@   props C10 C09
+//@   arith order
+//@   requires CollInv(g) && ObjInv(obj)
+//@   ensures result == collContainsS(g, obj)
+//@   ensures FeatureTransparent [C09]: isFeatureK(obj) ==> result == collContainsS(g, ftBase(obj))
+//@   entry use anySeenEmpty(obj, oNParts(obj))
+//@   call 1 iterinv objContained == anySeenNonEmpty(seen, obj, oNParts(obj)) && (forall p int :: seen[p] ==> partContained(g, obj, p))
+//@   call 1 iterstop !objContained && !allPartsContainedUpTo(g, obj, oNParts(obj))
+//@   call 1 use anySeenStore(seen, obj, $idx, oNParts(obj))
+//@   call 1 use partNotContainedWitness(g, obj, $idx, oNParts(obj))
+//@   call 1 after use allPartsContainedFold(seen, g, obj, oNParts(obj))
+//@   call 1 after use anySeenFull(seen, obj, oNParts(obj))
+//@   call 4 iterinv !geomContained && (forall j int :: seen[j] ==> !oContains(collChild(g,j), geom))
+//@   call 4 iterstop geomContained && anyChildContainsUpTo(g, geom, collN(g))
+//@   call 4 use childContainsWitness(g, geom, $idx, collN(g))
+//@   call 4 use kidInv(g, $idx)
+//@   call 4 after use childContainsFold(seen, g, geom, collN(g))
+
+//@ func collection.Within
+//@   props C10 C09
+//@   arith order
+//@   requires CollInv(g) && ObjInv(obj)
+//@   ensures result == oContains(obj, g)
+//@ func collection.Spatial
+//@   props C10 C09
+//@   arith order
+//@   requires CollInv(g)
+//@   ensures result == g && SpInv(result)
+
+// ---------------------------------------------------------------- parseInitRectIndex: establishes the cached state
+//@ spec func countNonEmptyUpTo(c *collection, k int) int rec { ite(k <= 0, 0, countNonEmptyUpTo(c,k-1) + ite(oEmpty(collChild(c,k-1)), 0, 1)) }
+//@ lemma countZeroIffAllEmpty(c *collection, k int)
+//@   props C10
+//@   ensures 0 <= countNonEmptyUpTo(c, k) && (countNonEmptyUpTo(c, k) == 0) == allEmptyUpTo(c, k)
+//@   induction k
+
+// the function writes only the three cached fields of g; every other collection keeps them
+
+// A-FRAME (consequence of A-TREE: g is not among the descendants of its own children, objects are finite trees): rewriting the cached
+// fields (and the children slice) of the collection under construction does not change the model of its (pre-existing, fully constructed) children.
+// Two-state statement: `old` is the heap before the writes. Not provable in the engine: needs induction over the depth of the object tree.
+//@ axiom AFrameKid(o Object, g *collection) twostate
+//@   requires (forall c *collection :: c != g ==> (c.children == old(c.children) && c.pempty == old(c.pempty) && c.prect == old(c.prect) && c.tree == old(c.tree))) && old(KidInv(o)) && (isCollObjK(o) ==> collOf(o) != g)
+//@   ensures KidInv(o) && oEmpty(o) == old(oEmpty(o)) && oRect(o) == old(oRect(o))
+
+// frame of the folds (proved): if the children and their emptiness / rectangles are the same in both states, so are the folds
+//@ lemma frameFolds(c *collection, k int) twostate
+//@   props C10
+//@   requires (forall j int :: (0 <= j && j < k) ==> (collChild(c,j) == old(collChild(c,j)) && oEmpty(collChild(c,j)) == old(oEmpty(collChild(c,j))) && oRect(collChild(c,j)) == old(oRect(collChild(c,j)))))
+//@   ensures allEmptyUpTo(c,k) == old(allEmptyUpTo(c,k)) && unionUpTo(c,k) == old(unionUpTo(c,k)) && countNonEmptyUpTo(c,k) == old(countNonEmptyUpTo(c,k))
+//@   induction k
+
+// A-RTREE (insertion side): Insert(min, max, v) makes v an item of the tree with that box; after inserting every non-empty child with its
+// own rectangle into a fresh tree (and nothing else: collection.go:289-300 is the only place a tree is built) the tree holds exactly those
+//@ spec func treeHasItem(t ref, v Object, box geometry.Rect) bool
+//@ extern rtree.RTree.Insert
+//@   ensures treeHasItem(self, value, geometry.mkRect(geometry.mkPoint(min[0], min[1]), geometry.mkPoint(max[0], max[1])))
+//@ spec func allInserted(c *collection, k int) bool { forall j int :: (0 <= j && j < k && !oEmpty(collChild(c,j))) ==> treeHasItem(c.tree, collChild(c,j), oRect(collChild(c,j))) }
+//@ axiom ARTreeBuilt(c *collection)
+//@   requires c.tree != nil && allInserted(c, collN(c))
+//@   ensures TreeHolds(c)
+
+//@ func unionRects
+//@   props C10 C11
+//@   arith order
+//@   ensures result == unionRectS(a, b)
+
+//@ spec func indexWanted(c *collection, n int) bool { countNonEmptyUpTo(c, collN(c)) > 0 && n != 0 && countNonEmptyUpTo(c, collN(c)) >= n }
+
+//@ func collection.parseInitRectIndex
+//@   props C10 C11
+//@   arith order
+//@   requires g != nil && opts != nil && CollKidsInv(g) && g.prect == zeroRect() && g.tree == nil
+//@   requires Acyclic: forall j int :: (0 <= j && j < collN(g) && isCollObjK(collChild(g,j))) ==> collOf(collChild(g,j)) != g
+//@   modifies collection.pempty, collection.prect, collection.tree
+//@   ensures Inv: CollInv(g)
+//@   ensures Empty: g.pempty == allEmptyUpTo(g, collN(g))
+//@   ensures Rect: g.prect == unionUpTo(g, collN(g))
+//@   ensures Index: (g.tree != nil) == indexWanted(g, opts.IndexChildren)
+//@   ensures Frame: (forall c *collection :: c != g ==> (c.pempty == old(c.pempty) && c.prect == old(c.prect) && c.tree == old(c.tree)))
+//@   entry use forall j int :: kidInv(g, j)
+//@   loop 0 invariant Frame: (forall c *collection :: c != g ==> (c.pempty == old(c.pempty) && c.prect == old(c.prect) && c.tree == old(c.tree))) && g.tree == nil
+//@   loop 0 invariant StateE: g.pempty == allEmptyUpTo(g, $i)
+//@   loop 0 invariant StateC: count == countNonEmptyUpTo(g, $i)
+//@   loop 0 invariant StateR: g.prect == unionUpTo(g, $i)
+//@   loop 0 begin use countZeroIffAllEmpty(g, $i)
+//@   loop 0 begin use forall j int :: AFrameKid(collChild(g, j), g)
+//@   loop 0 begin use frameFolds(g, $i)
+//@   loop 0 begin use frameFolds(g, $i+1)
+//@   loop 0 assert OldKids: forall j int :: (0 <= j && j < collN(g)) ==> old(KidInv(collChild(g,j)))
+//@   loop 0 assert SameHead: forall j int :: (0 <= j && j < collN(g)) ==> (KidInv(collChild(g,j)) && oEmpty(collChild(g,j)) == old(oEmpty(collChild(g,j))) && oRect(collChild(g,j)) == old(oRect(collChild(g,j))))
+//@   loop 0 assert collChild(g, $i) == child && KidInv(child)
+//@   stmt collection.go:277 use AFrameKid(child, g)
+//@   loop 0 use forall j int :: AFrameKid(collChild(g, j), g)
+//@   loop 0 use frameFolds(g, $i)
+//@   loop 0 use frameFolds(g, $i+1)
+//@   loop 1 invariant Frame: (forall c *collection :: c != g ==> (c.pempty == old(c.pempty) && c.prect == old(c.prect) && c.tree == old(c.tree))) && g.tree != nil
+//@   loop 1 invariant State: g.pempty == allEmptyUpTo(g, collN(g)) && g.prect == unionUpTo(g, collN(g)) && count == countNonEmptyUpTo(g, collN(g))
+//@   loop 1 invariant Ins: allInserted(g, $i)
+//@   loop 1 begin use AFrameKid(collChild(g, $i), g)
+//@   loop 1 assert collChild(g, $i) == child && KidInv(child)
+//@   ret use forall j int :: AFrameKid(collChild(g, j), g)
+//@   ret use ARTreeBuilt(g)
+//@   ret have OldKids: forall j int :: (0 <= j && j < collN(g)) ==> old(KidInv(collChild(g,j)))
+//@   ret have Same: forall j int :: (0 <= j && j < collN(g)) ==> KidInv(collChild(g,j))
+//@   ret have Tree: TreeInv(g)
+//@   ret have Kids: CollKidsInv(g)
+//@   ret have Shape: CollShape(g)
+
+// ---------------------------------------------------------------- constructors
+//@ spec func objAt(os []Object, i int) Object opaque { os[i] }
+//@ spec func kidsOK(os []Object) bool { forall i int :: (0 <= i && i < len(os)) ==> KidInv(objAt(os, i)) }
+
+//@ func NewGeometryCollection
+//@   props C10 C11
+//@   arith order
+//@   entry use rootGlobalsInit()
+//@   requires Kids: kidsOK(geometries)
+//@   requires Alloc: forall i int :: (0 <= i && i < len(geometries)) ==> ($alloc[objAt(geometries, i)] && (isCollObjK(objAt(geometries, i)) ==> $alloc[collOf(objAt(geometries, i))]))
+//@   ensures Kind: isGeometryCollectionK(result) && !old($alloc)[result]
+//@   ensures Inv: CollInv(result.collection)
+//@   ensures Kids: collN(result.collection) == len(geometries) && (forall i int :: (0 <= i && i < len(geometries)) ==> collChild(result.collection, i) == objAt(geometries, i))
+//@   stmt geometrycollection.go:14 use forall i int :: AFrameKid(objAt(geometries, i), g.collection)
+//@   stmt geometrycollection.go:14 assert Fresh: !old($alloc)[g.collection]
+//@   stmt geometrycollection.go:14 assert Kids: forall i int :: (0 <= i && i < len(geometries)) ==> (collChild(g.collection, i) == objAt(geometries, i) && KidInv(objAt(geometries, i)))
+
+//@ func NewFeatureCollection
+//@   props C10 C11
+//@   arith order
+//@   entry use rootGlobalsInit()
+//@   requires Kids: kidsOK(features)
+//@   requires Alloc: forall i int :: (0 <= i && i < len(features)) ==> ($alloc[objAt(features, i)] && (isCollObjK(objAt(features, i)) ==> $alloc[collOf(objAt(features, i))]))
+//@   ensures Kind: isFeatureCollectionK(result) && !old($alloc)[result]
+//@   ensures Inv: CollInv(result.collection)
+//@   ensures Kids: collN(result.collection) == len(features) && (forall i int :: (0 <= i && i < len(features)) ==> collChild(result.collection, i) == objAt(features, i))
+//@   stmt featurecollection.go:14 use forall i int :: AFrameKid(objAt(features, i), g.collection)
+//@   stmt featurecollection.go:14 assert Fresh: !old($alloc)[g.collection]
+//@   stmt featurecollection.go:14 assert Kids: forall i int :: (0 <= i && i < len(features)) ==> (collChild(g.collection, i) == objAt(features, i) && KidInv(objAt(features, i)))
+
+//@ lemma pointKid(o Object)
+//@   props C10
+//@   requires isPointK(o)
+//@   ensures KidInv(o) && !isCollObjK(o)
+//@ func NewMultiPoint
+//@   props C10 C11
+//@   arith order
+//@   entry use rootGlobalsInit()
+//@   ensures Kind: isMultiPointK(result) && !old($alloc)[result]
+//@   ensures Inv: CollInv(result.collection)
+//@   ensures Kids: collN(result.collection) == len(points) && (forall i int :: (0 <= i && i < len(points)) ==> (isPointK(collChild(result.collection, i)) && as(collChild(result.collection, i), *Point).base == geometry.ptAt(points, i)))
+//@   loop 0 invariant Fresh: g != nil && !old($alloc)[g] && !old($alloc)[g.collection] && g.collection.prect == zeroRect() && g.collection.tree == nil
+//@   loop 0 invariant Frame: forall c *collection :: old($alloc)[c] ==> (c.children == old(c.children) && c.pempty == old(c.pempty) && c.prect == old(c.prect) && c.tree == old(c.tree) && c.extra == old(c.extra))
+//@   loop 0 invariant Kids: collN(g.collection) == $i && (forall j int :: (0 <= j && j < $i) ==> (isPointK(collChild(g.collection, j)) && as(collChild(g.collection, j), *Point).base == geometry.ptAt(points, j)))
+//@   loop 0 assert geometry.ptAt(points, $i) == point
+//@   stmt multipoint.go:15 use forall j int :: pointKid(collChild(g.collection, j))
